@@ -384,6 +384,25 @@ def run_case(comp, op, vt, scratch, out, only=None):
                 viol(out, comp, op, vt, kind, {"comp": comp, "op": op, "vt": vt, "n": n, "torn": k},
                      "crash before op %d/%d %r%s, read order %s: observed data %r marker %r" % (
                          n, L, at, " after %d bytes" % k if k else "", order, short(obs.get("data")), obs.get("marker")))
+        # a restarted evaluation files 'ready' metadata for the key (the last progress report of evaluate_action does that
+        # before the value is stored): whatever data the crash left must not become a valid entry through it
+        # (filing metadata that names another type than the data already there is a caller error: same-type cases only)
+        if comp != "filestore" and new is not None and op != "store_metadata" and not op.endswith("other_type"):
+            probe = os.path.join(base, "probe2")
+            shutil.rmtree(probe, ignore_errors=True)
+            shutil.copytree(work, probe)
+            try:
+                cache_store_metadata(build(comp, probe), KEY, new, "NEW")
+                out["counters"]["ready_metadata_after_restart"] = out["counters"].get("ready_metadata_after_restart", 0) + 1
+                obs2 = read_entry(comp, probe, "data_first")
+                kind2 = classify(comp, dict(obs2, marker=None), old, new, op)
+                if kind2 is not None and "metadata of the other version" not in kind2:
+                    viol(out, comp, op, vt, "after 'ready' metadata was filed following the restart: " + kind2,
+                         {"comp": comp, "op": op, "vt": vt, "n": n, "torn": k},
+                         "crash before op %d/%d %r%s: observed data %r" % (n, L, trace[n - 1], " after %d bytes" % k if k else "", short(obs2.get("data"))))
+            except Exception:
+                pass
+            shutil.rmtree(probe, ignore_errors=True)
         # recovery: after the restart the entry is written again (a shorter value of the same kind) without any fault;
         # whatever the crash left behind (temporary files, partial files) must not leak into it
         if (n + k) % 2 == 0 or L <= 6:
